@@ -225,6 +225,21 @@ func runParse(c parseCase) harness.Result {
 	if o1.err != nil && e.NilOnError && !cat.IsNilValue(o1.val) {
 		return harness.Fail("%s returned error %q together with a non-nil value %+v", e.Name, o1.err, o1.val)
 	}
+	// the decoded value is the caller's: it reads the same after the same entry point has decoded another input (the same bytes with
+	// the second half inverted - for most frames the same header and counts with other data)
+	if o1.err == nil && !cat.IsNilValue(o1.val) && n >= 2 {
+		was := fmt.Sprintf("%+v", o1.val)
+		sib := append([]byte(nil), c.Data...)
+		for i := n / 2; i < n; i++ {
+			sib[i] ^= 0xFF
+		}
+		if os := call(e, sib); os.panicked != nil {
+			return harness.Fail("%s panicked on %d-byte input %x: %v", e.Name, n, sib, os.panicked)
+		}
+		if now := fmt.Sprintf("%+v", o1.val); now != was {
+			return harness.Fail("%s decoded input %x to %s; after it has decoded %x as well, the value returned first reads %s: results share memory", e.Name, []byte(c.Data), was, sib, now)
+		}
+	}
 	// capacity independence
 	fillers := [][]byte{}
 	ff := make([]byte, 64)
